@@ -15,6 +15,58 @@ Inductive chain_sel :=
 
 Record obs := { o_ran : bool; o_status : Z; o_loc : Z; o_sess : stable }.
 
+(** The accounts the harness configures (harness/home/zz_verif_C11_test.go
+    [c11Accounts]: the same constants; the harness emits one [CAccounts] case
+    with the name and stored hash of every user of the real Auth object, so a
+    divergence is a mismatch).  Account 0 and 1 are well-formed (bcrypt, cost
+    4, "correct horse"); 2..10 are what a botched edit of users[].password
+    leaves behind: truncated, plain text, empty, cost 3, version 3, no '$',
+    cost 32, one character short, truncated and shadowing the well-formed
+    account 11 of the same name. *)
+Definition std_accounts : list (bytes * bytes) := [
+  (* admin : $2a$04$/hHIwu60CZqkB0tMLFfUzeuxjUv9yNRiIgS5x4t.8fw48hPyLMx5S *)
+  ([97;100;109;105;110]%N,
+   [36;50;97;36;48;52;36;47;104;72;73;119;117;54;48;67;90;113;107;66;48;116;77;76;70;102;85;122;101;117;120;106;85;118;57;121;78;82;105;73;103;83;53;120;52;116;46;56;102;119;52;56;104;80;121;76;77;120;53;83]%N);
+  (* second : $2a$04$ZzPhPgJ98a0vaqlMZyvDseqUHqyZ4wsi1GFKCHZUnwJIVW2VBtViO *)
+  ([115;101;99;111;110;100]%N,
+   [36;50;97;36;48;52;36;90;122;80;104;80;103;74;57;56;97;48;118;97;113;108;77;90;121;118;68;115;101;113;85;72;113;121;90;52;119;115;105;49;71;70;75;67;72;90;85;110;119;74;73;86;87;50;86;66;116;86;105;79]%N);
+  (* trunc : $2a$04$/hHIwu60CZqkB0tMLFfUzeu *)
+  ([116;114;117;110;99]%N,
+   [36;50;97;36;48;52;36;47;104;72;73;119;117;54;48;67;90;113;107;66;48;116;77;76;70;102;85;122;101;117]%N);
+  (* plain : correct horse *)
+  ([112;108;97;105;110]%N,
+   [99;111;114;114;101;99;116;32;104;111;114;115;101]%N);
+  (* empty :  *)
+  ([101;109;112;116;121]%N,
+   (@nil N));
+  (* lowcost : $2a$03$/hHIwu60CZqkB0tMLFfUzeuxjUv9yNRiIgS5x4t.8fw48hPyLMx5S *)
+  ([108;111;119;99;111;115;116]%N,
+   [36;50;97;36;48;51;36;47;104;72;73;119;117;54;48;67;90;113;107;66;48;116;77;76;70;102;85;122;101;117;120;106;85;118;57;121;78;82;105;73;103;83;53;120;52;116;46;56;102;119;52;56;104;80;121;76;77;120;53;83]%N);
+  (* badver : $3a$04$/hHIwu60CZqkB0tMLFfUzeuxjUv9yNRiIgS5x4t.8fw48hPyLMx5S *)
+  ([98;97;100;118;101;114]%N,
+   [36;51;97;36;48;52;36;47;104;72;73;119;117;54;48;67;90;113;107;66;48;116;77;76;70;102;85;122;101;117;120;106;85;118;57;121;78;82;105;73;103;83;53;120;52;116;46;56;102;119;52;56;104;80;121;76;77;120;53;83]%N);
+  (* badprefix : x2a$04$/hHIwu60CZqkB0tMLFfUzeuxjUv9yNRiIgS5x4t.8fw48hPyLMx5S *)
+  ([98;97;100;112;114;101;102;105;120]%N,
+   [120;50;97;36;48;52;36;47;104;72;73;119;117;54;48;67;90;113;107;66;48;116;77;76;70;102;85;122;101;117;120;106;85;118;57;121;78;82;105;73;103;83;53;120;52;116;46;56;102;119;52;56;104;80;121;76;77;120;53;83]%N);
+  (* highcost : $2a$32$/hHIwu60CZqkB0tMLFfUzeuxjUv9yNRiIgS5x4t.8fw48hPyLMx5S *)
+  ([104;105;103;104;99;111;115;116]%N,
+   [36;50;97;36;51;50;36;47;104;72;73;119;117;54;48;67;90;113;107;66;48;116;77;76;70;102;85;122;101;117;120;106;85;118;57;121;78;82;105;73;103;83;53;120;52;116;46;56;102;119;52;56;104;80;121;76;77;120;53;83]%N);
+  (* trunc59 : $2a$04$/hHIwu60CZqkB0tMLFfUzeuxjUv9yNRiIgS5x4t.8fw48hPyLMx5 *)
+  ([116;114;117;110;99;53;57]%N,
+   [36;50;97;36;48;52;36;47;104;72;73;119;117;54;48;67;90;113;107;66;48;116;77;76;70;102;85;122;101;117;120;106;85;118;57;121;78;82;105;73;103;83;53;120;52;116;46;56;102;119;52;56;104;80;121;76;77;120;53]%N);
+  (* dup : $2a$04$EjM0rHn.WW5fa *)
+  ([100;117;112]%N,
+   [36;50;97;36;48;52;36;69;106;77;48;114;72;110;46;87;87;53;102;97]%N);
+  (* dup : $2a$04$EjM0rHn.WW5faHGsdIh6FOt2j0Lbs/ekX.3n8WPovgmjjGMt1GTS. *)
+  ([100;117;112]%N,
+   [36;50;97;36;48;52;36;69;106;77;48;114;72;110;46;87;87;53;102;97;72;71;115;100;73;104;54;70;79;116;50;106;48;76;98;115;47;101;107;88;46;51;110;56;87;80;111;118;103;109;106;106;71;77;116;49;71;84;83;46]%N)
+].
+
+(** The bcrypt oracle as observed: (index into [us], password, answer). *)
+Definition orc_in (us : list (bytes * bytes)) (t : list (N * bytes * bc_res)) : bc_oracle :=
+  bc_of (map (fun '(i, p, r) => (snd (nth (N.to_nat i) us ([], [])), p, r)) t).
+Definition orc : list (N * bytes * bc_res) -> bc_oracle := orc_in std_accounts.
+
 Inductive case :=
   (* a request through a probe handler behind a real chain *)
   | CProbe (e : env) (sess : stable) (k : chain_sel) (r : request) (o : obs)
@@ -30,7 +82,17 @@ Inductive case :=
      request through a real chain with [globalContext.auth] as initUsers left
      it.  The model side is [boot] with the facts tools/routes read off the
      source; the two start-up flags of [e] are replaced by its verdict. *)
-  | CBoot (b : boot_in) (obs_auth obs_err : bool) (probe : option (env * stable * chain_sel * request * obs)).
+  | CBoot (b : boot_in) (obs_auth obs_err : bool) (probe : option (env * stable * chain_sel * request * obs))
+  (* the users of the real Auth object behind every [CProbe] with [std_accounts] *)
+  | CAccounts (us : list (bytes * bytes))
+  (* findUser with its three callers' eyes: the real findUser(login, pw) on an
+     Auth whose users are [us] ([found], and the index in [us] of the first
+     account equal to the one returned); POST /control/login through
+     handleLogin (status; cookie issued); basic credentials through
+     postInstall(optionalAuth(probe)) (probe ran).  [t]: bcrypt as observed by
+     calling it directly on every account named [login]. *)
+  | CFind (us : list (bytes * bytes)) (t : list (N * bytes * bc_res)) (login pw : bytes)
+          (found : bool) (idx : N) (login_status : Z) (cookie_issued : bool) (basic_ran : bool).
 
 (** The map in memory only: the bucket is the business of C12 (Run/C12.v). *)
 Definition mk_sess (t : stable) : sstate :=
@@ -86,6 +148,24 @@ Definition case_ok (c : case) : bool :=
           Bool.eqb ran (o_ran o) && (st =? o_status o) && (loc =? o_loc o) && stab_ok m (o_sess o)
       | _, _ => false
       end
+  | CAccounts us => bool_decide (us = std_accounts)
+  | CFind us t l p found idx st ck ran =>
+      let bc := orc_in us t in
+      let res := find_user bc us l p in
+      let ok := match res with Some _ => true | None => false end in
+      Bool.eqb ok found &&
+      match res with
+      | Some u => bool_decide (nth (N.to_nat idx) us ([], []) = u)
+      | None => true
+      end &&
+      (st =? (if ok then 200 else 403)) && Bool.eqb ck ok &&
+      (* basic credentials behind the chain of /control/version.json *)
+      let e := {| e_first_run := false; e_auth_present := true; e_accounts := us; e_bcrypt := bc;
+                  e_https := false; e_force_https := false; e_now := 0; e_ttl := 0 |} in
+      let r := {| r_method := str_GET; r_path := [47;112]%N; r_ctype := []; r_clen := 0; r_cookie := CNone;
+                  r_basic := BCred l p; r_tls := false; r_host_ok := true; r_hdrs := [] |} in
+      let '(ran', _, _, _) := run_probe e [] (KChain [WPostInstall; WOptionalAuth]) r in
+      Bool.eqb ran' ran
   end.
 
 Definition mismatches := Base.Run.mismatches case_ok.
@@ -104,5 +184,11 @@ Definition explain (c : case) : bool * Z * Z * stable :=
           (ran, st, loc, map (fun '(k, s) => (k, (s_user s, s_expire s))) (map_to_list m))
       | BootServe p u, None => (p, -2, 0, [])
       | BootFatal, _ => (false, -1, 0, [])
+      end
+  | CAccounts us => (bool_decide (us = std_accounts), 0, 0, [])
+  | CFind us t l p _ _ _ _ _ =>
+      match find_user (orc_in us t) us l p with
+      | Some (n, h) => (true, 200, 0, [(n, (h, 0%N))])
+      | None => (false, 403, 0, [])
       end
   end.
